@@ -42,7 +42,7 @@ def bounds(tier):
 
 def graph():
     g = rgfa.Graph()
-    seqs = {"s1": "ACG", "s1.alt": "TTGA", "s3": "CA"}  # 's1.alt' next to 's1': a name with a non-word character whose prefix is a segment too
+    seqs = {"s1": "ACG", "s1.alt": "TTga", "s3": "CA"}  # the last two bases of s1.alt are soft-masked (lower case; reads carry the same case)  # 's1.alt' next to 's1': a name with a non-word character whose prefix is a segment too
     so = 0
     for n, q in seqs.items():
         g.add_seg(n, q, [("LN", "i", str(len(q))), ("SN", "Z", "chr1"), ("SO", "i", str(so)), ("SR", "i", "0")])
@@ -155,7 +155,7 @@ def fragment(cg):
 
 def edits_of(target, max_edits, double_ok):
     """yield reads derived from the target by <= max_edits edits"""
-    nxt = {"A": "C", "C": "G", "G": "T", "T": "A"}
+    nxt = {"A": "C", "C": "G", "G": "T", "T": "A", "a": "C", "c": "G", "g": "T", "t": "A"}
     single = []
     L = len(target)
     for p in range(L):
@@ -432,6 +432,22 @@ def boundary(res, scratch):
             q = f"comp{L}_{dist}"
             reads[q] = read
             recs.append(rgfa.Rec(q, L, 0, L, "+", ">b1>b2", len(big) + 4, p0, p0 + L, L - 1, L + 1, 60, ["tp:A:P", f"cg:Z:{cg}", "zz:Z:t_5"]))
+            info.append((2, False))
+    # two deletions of 15-40 bases separated by 2-3 bases: the input CIGAR with two gaps is optimal under the linear gap
+    # penalties (6 + 2 per base); a scoring scheme that makes long gaps cheaper would merge them into one gap plus mismatches
+    for gl in (15, 19, 25, 40):
+        for mid in (2, 3):
+            p0, a = 700, 100
+            left, d1 = big[p0 : p0 + a], p0 + a
+            midseq = big[d1 + gl : d1 + gl + mid]
+            d2 = d1 + gl + mid
+            right = big[d2 + gl : d2 + gl + 100]
+            read = left + midseq + right
+            L = a + gl + mid + gl + 100
+            cg = f"{a}={gl}D{mid}={gl}D100="
+            q = f"twodel{gl}_{mid}"
+            reads[q] = read
+            recs.append(rgfa.Rec(q, len(read), 0, len(read), "+", ">b1>b2", len(big) + 4, p0, p0 + L, len(read), L, 60, ["tp:A:P", f"cg:Z:{cg}", "zz:Z:t_6"]))
             info.append((2, False))
     fasta = "".join(f">{q}\n{s_}\n" for q, s_ in reads.items())
     out, lines = run_realign_file(scratch, g.text(), fasta, recs, tag="big")
